@@ -40,11 +40,9 @@ func (r *ReferenceStorage) CheckAndSetReference(ref, old *plumbing.Reference) er
 		return r.SetReference(ref)
 	}
 
-	tmp, err := r.temporal.Reference(old.Name())
-	if err == plumbing.ErrReferenceNotFound {
-		tmp, err = r.ReferenceStorer.Reference(old.Name())
-	}
-
+	// Compare with the value the transaction shows (pending writes and
+	// deletions applied), not with whatever the base still holds.
+	tmp, err := r.Reference(old.Name())
 	if err != nil {
 		return err
 	}
